@@ -22,4 +22,4 @@ class RemoveAsserts(SuiteTransformer):
             else:
                 return [self.add_child(ast.Expr(value=ast.Num(0)), parent=parent)]
 
-        return without_assert
+        return self.without_new_docstring(node_list, without_assert, parent)
